@@ -7,7 +7,10 @@ package verifrt
 import (
 	"fmt"
 	"strings"
+	"sync"
 )
+
+var rtMu sync.Mutex // harness goroutines share the case state
 
 type caseState struct {
 	assign   map[string]uint64
@@ -25,6 +28,8 @@ type assumeFail struct{}
 type assertFail struct{ label string }
 
 func next(name string) uint64 {
+	rtMu.Lock()
+	defer rtMu.Unlock()
 	cur.counters[name]++
 	k := fmt.Sprintf("%s_%d", name, cur.counters[name])
 	v, ok := cur.assign[k]
@@ -66,19 +71,27 @@ func Assume(c bool) {
 
 func Assert(c bool, label string) {
 	if !c {
-		cur.fail = label
+		rtMu.Lock()
+		if cur.fail == "" {
+			cur.fail = label
+		}
+		rtMu.Unlock()
 		panic(assertFail{label})
 	}
 }
 
 // Fail is an unconditional violation.
 func Fail(label string) {
-	cur.fail = label
+	rtMu.Lock()
+	if cur.fail == "" {
+		cur.fail = label
+	}
+	rtMu.Unlock()
 	panic(assertFail{label})
 }
 
-func Reach(label string) { cur.reached[label] = true }
-func Tag(tag string)     { cur.tags = append(cur.tags, tag) }
+func Reach(label string) { rtMu.Lock(); cur.reached[label] = true; rtMu.Unlock() }
+func Tag(tag string)     { rtMu.Lock(); cur.tags = append(cur.tags, tag); rtMu.Unlock() }
 
 // Non-branching boolean helpers (terms under the engine).
 func And(a, b bool) bool     { return a && b }
@@ -141,9 +154,13 @@ func ConcretizeByte(b byte, candidates string) byte {
 	return b
 }
 
-func Yield()   {}
-func WaitAll() {}
+// Yield is a scheduling point under the engine. Natively it nudges the Go
+// scheduler so that repeated runs see different interleavings.
+func Yield() { nativeYield() }
 
 // Memo returns f(); under the engine the (concrete, read-only) result is
 // computed once per key and shared by all paths.
 func Memo(key string, f func() interface{}) interface{} { return f() }
+
+// Preemptions bounds the non-forced thread switches explored by the engine.
+func Preemptions(n int) {}
